@@ -61,7 +61,7 @@ func init() {
 		add(i < 4, fmt.Sprintf("TimeSpan(%v)", x), func() *variants.Variant { return variants.VariantFromTimeSpan(x) })
 	}
 	zoneA := time.FixedZone("A", 3600)
-	for i, x := range []time.Time{{}, time.Unix(0, 0).UTC(), time.Date(2020, 2, 29, 13, 14, 15, 123456789, time.UTC), time.Date(2020, 2, 29, 14, 14, 15, 123456789, zoneA), time.Date(1999, 12, 31, 23, 59, 59, 0, time.UTC), time.Unix(86400, 0).UTC()} {
+	for i, x := range []time.Time{{}, time.Unix(0, 0).UTC(), time.Date(2020, 2, 29, 13, 14, 15, 123456789, time.UTC), time.Date(2020, 2, 29, 14, 14, 15, 123456789, zoneA), time.Date(1999, 12, 31, 23, 59, 59, 0, time.UTC), time.Unix(86400, 0).UTC(), time.Date(2024, 1, 1, 0, 30, 0, 0, time.FixedZone("E", 5*3600)), time.Date(2024, 1, 7, 23, 30, 0, 0, time.FixedZone("W", -8*3600))} {
 		x := x
 		add(i < 4, "DateTime("+x.Format(time.RFC3339Nano)+")", func() *variants.Variant { return variants.VariantFromDateTime(x) })
 	}
